@@ -394,7 +394,7 @@ type schedObs struct {
 	unexpected []string // a task entered Run that the reference does not expect (C02-style)
 	missing    []string // C04/C03: expected task did not start while others were held
 	elapsed    time.Duration
-	inner      map[int][2][]int // nested stage -> final statuses and run counts of its inner stages
+	inner      map[string][2][]int // included pipeline (path of stage indices) -> final statuses and run counts of its stages
 }
 
 const schedPause = 500 * time.Microsecond
@@ -617,24 +617,36 @@ func runSchedCase(p *schedPlan) (obs *schedObs, rel [][]string, buildErr error) 
 		obs.runs[i] = r.entered[name]
 		r.mu.Unlock()
 	}
-	obs.inner = map[int][2][]int{}
-	for i := 0; i < c.n; i++ {
-		if c.nested == nil || c.nested[i] == nil {
-			continue
-		}
-		nc := c.nested[i]
-		st, runs := make([]int, nc.n), make([]int, nc.n)
-		for k := 0; k < nc.n; k++ {
-			name := fmt.Sprintf("%d.%d", i, k)
-			if sg := all.stages[name]; sg != nil {
-				st[k] = int(sg.ReadStatus())
+	// included pipelines, at every depth: keyed by the stage indices leading to them ("1", "1.0", ...)
+	obs.inner = map[string][2][]int{}
+	var walk func(c *schedCfg, prefix string)
+	walk = func(c *schedCfg, prefix string) {
+		for i := 0; i < c.n; i++ {
+			if c.nested == nil || c.nested[i] == nil {
+				continue
 			}
-			r.mu.Lock()
-			runs[k] = r.entered[name]
-			r.mu.Unlock()
+			nc := c.nested[i]
+			path := fmt.Sprintf("%s%d", prefix, i)
+			st, runs := make([]int, nc.n), make([]int, nc.n)
+			for k := 0; k < nc.n; k++ {
+				name := fmt.Sprintf("%s.%d", path, k)
+				if sg := all.stages[name]; sg != nil {
+					st[k] = int(sg.ReadStatus())
+				}
+				r.mu.Lock()
+				runs[k] = r.entered[name]
+				r.mu.Unlock()
+				// a stage that includes a pipeline never enters the runner itself: it counts as started once
+				// when it ended done or failed
+				if nc.nested != nil && nc.nested[k] != nil && (st[k] == stDone || st[k] == stError) {
+					runs[k] = 1
+				}
+			}
+			obs.inner[path] = [2][]int{st, runs}
+			walk(nc, path+".")
 		}
-		obs.inner[i] = [2][]int{st, runs}
 	}
+	walk(c, "")
 	return obs, rel, nil
 }
 
